@@ -451,12 +451,16 @@ struct File {
 impl File {
     fn fallocate(&self, offset: i64, len: i64) -> Result<(), StorageError> {
         libc::fallocate(&self.fd, 0, offset, len)?;
+        #[cfg(feature = "verif-hooks")]
+        super::verif::record(super::verif::IoEvent::Fallocate { offset, len });
         // A full `fsync` (not `fdatasync`) so the size/extent metadata
         // dirtied by `fallocate` is durable before any data written into
         // the new region is committed; `fdatasync` may skip metadata not
         // needed to read back already-written data. This runs once per
         // `PREALLOC_CHUNK`, not per commit.
         libc::fsync(&self.fd)?;
+        #[cfg(feature = "verif-hooks")]
+        super::verif::record(super::verif::IoEvent::Fsync);
         Ok(())
     }
 
@@ -489,6 +493,11 @@ impl File {
                     return Err(StorageError::IoError);
                 }
                 Ok(n) => {
+                    #[cfg(feature = "verif-hooks")]
+                    super::verif::record(super::verif::IoEvent::Write {
+                        offset,
+                        data: buf.get(..n).assume("`n` is in bounds")?.to_vec(),
+                    });
                     buf = buf.get(n..).assume("`n` is in bounds")?;
                     offset = offset
                         .checked_add(i64::try_from(n).assume("write within bounds")?)
@@ -507,6 +516,8 @@ impl File {
         // mapping), never timestamps. It avoids the extra inode-metadata journal
         // commit that `fsync` forces.
         libc::fdatasync(&self.fd)?;
+        #[cfg(feature = "verif-hooks")]
+        super::verif::record(super::verif::IoEvent::Fdatasync);
         Ok(())
     }
 
